@@ -6,6 +6,15 @@ ATTRS = ['t0', 't1', 't2', 't3', 't4', 't5', 'SUBDOMAIN_t6', 'INGRESSION_t7']
 N_TWEENS = len(ATTRS)
 MODULE = 'harness.c18.tw.'
 NAMES = [MODULE + a for a in ATTRS]
+# OTHER SPELLINGS of dotted names that Configurator.maybe_dotted resolves to the same factories (the configurator's
+# package is harness.c18): package-relative ('.tw.t0') and pkg_resources style ('harness.c18.tw:t1', '.tw:t2').  A tween
+# is known to the sorter under the string it was ADDED with, and other tweens refer to it by that same string.
+ALIASES = ['.tw.t0', '.tw.t1', 'harness.c18.tw:t1', 'harness.c18.tw:t2', '.tw:t3']
+ALL_NAMES = NAMES + ALIASES
+
+
+def attr_of(name):
+    return name.replace(':', '.').rsplit('.', 1)[-1]
 
 
 def _mk(name, ident=None):
@@ -17,7 +26,8 @@ def _mk(name, ident=None):
             finally:
                 LOG.append([1, name])
         return tween
-    factory._c18_id = NAMES.index(name) + 1 if ident is None else ident
+    factory._c18_name = name
+    factory._c18_id = ALL_NAMES.index(name) + 1 if ident is None else ident
     return factory
 
 
@@ -30,9 +40,9 @@ def rebind(name, ident):
     """the dotted name now resolves to the factory object carrying this id: the VERY SAME object as before when the
     id is the one already bound (re-registering an unchanged factory under other hints -- identity matters to code
     that short-cuts on `is`), a new object otherwise"""
-    attr = name[len(MODULE):]
+    attr = attr_of(name)
     cur = globals().get(attr)
-    if cur is not None and getattr(cur, '_c18_id', None) == ident:
+    if cur is not None and getattr(cur, '_c18_id', None) == ident and getattr(cur, '_c18_name', None) == name:
         return cur
     globals()[attr] = f = _mk(name, ident)
     return f
